@@ -171,8 +171,8 @@ def _check_c09(prog, ground_kwargs):
         evidence_holds = (not ground_kwargs.get("propagate_evidence")
                           or all(keyval(v_src, k) for _nm, k in lf.evidence()))
         for nm, k in names_src.items():
-            if not evidence_holds:
-                break
+            if not evidence_holds and not nm[1].startswith("evidence"):
+                continue        # (evidence nodes themselves are translated without assuming the evidence)
             a, b = keyval(v_src, k), keyval(v_dag, names_dag[nm])
             if a != b:
                 out["violations"].append(("cycle-breaking", "node %s: least-model value %s in the ground program, %s "
